@@ -476,6 +476,98 @@ def r6_ranges(ctx):
                       f"replay loop is `for {idx} in {astx.u(lp.iter)}: {astx.u(tgt)[:90]}`; specified range(rn) over self.election_states[i], starting at self._profile, store_states unset")
 
 
+# --------------------------------------------------------------------------------------------- R7
+MUTABLE_LITERALS = (ast.List, ast.Dict, ast.Set, ast.ListComp, ast.DictComp, ast.SetComp)
+
+
+def _is_mutable_literal(e):
+    if isinstance(e, MUTABLE_LITERALS):
+        return True
+    return isinstance(e, ast.Call) and astx.u(e.func) in ("list", "dict", "set", "defaultdict", "collections.defaultdict") and not e.args
+
+
+def r7_no_shared_mutable_state(ctx):
+    """State that outlives one call / one election object: mutable parameter defaults and mutable
+    class attributes that are mutated, module-level mutable objects mutated from functions, and
+    in-place mutation of arguments by the shared utilities."""
+    prog = ctx.prog
+    n = 0
+    scope = elect.SCOPE_ELECTION + ("src/votekit/cleaning.py", "src/votekit/cvr_loaders.py", "src/votekit/pref_interval.py")
+    for f in prog.iter_functions(scope):
+        if isinstance(f.node, ast.Lambda):
+            continue
+        n += 1
+        a = f.node.args
+        pos = a.posonlyargs + a.args
+        defaults = dict(zip([p.arg for p in pos][len(pos) - len(a.defaults):], a.defaults))
+        defaults.update({p.arg: d for p, d in zip(a.kwonlyargs, a.kw_defaults) if d is not None})
+        ws = effects.writes_in(f.node)
+        nm = effects.name_mutations(f.node)
+        for name, d in defaults.items():
+            if _is_mutable_literal(d) and (any(w.root == name for w in ws) or any(x[1] == name for x in nm)):
+                ctx.violated(f, d, f"{f.short}: mutable default `{name}={astx.u(d)}` is mutated", "the default object is shared by all calls: state leaks from one call / election into the next")
+    # class-level mutable attributes mutated through self / cls
+    for c in prog.classes.values():
+        if not c.module.path.startswith(scope):
+            continue
+        shared = {}
+        for st in c.node.body:
+            tg = st.targets[0] if isinstance(st, ast.Assign) else (st.target if isinstance(st, ast.AnnAssign) and st.value is not None else None)
+            val = st.value if isinstance(st, (ast.Assign, ast.AnnAssign)) else None
+            is_dc = any("dataclass" in astx.u(d) for d in c.node.decorator_list)
+            if isinstance(tg, ast.Name) and val is not None and _is_mutable_literal(val) and not is_dc:
+                shared[tg.id] = st
+        for name, st in shared.items():
+            for cls2 in [c] + prog.subclasses(c.name, strict=True):
+                for m in cls2.methods.values():
+                    rebinds = any(isinstance(x, ast.Assign) and any(astx.is_self_attr(t, name) for t in x.targets) for x in astx.walk_own(m.node)) if m.name == "__init__" else False
+                    if rebinds:
+                        continue
+                    for w in effects.writes_in(m.node):
+                        t = w.target
+                        while isinstance(t, ast.Subscript):
+                            t = t.value
+                        if isinstance(t, ast.Attribute) and t.attr == name and astx.u(t.value) in ("self", "cls", c.name):
+                            ctx.violated(m, w.node, f"{c.name}.{name} is a class-level mutable object mutated in {m.short}",
+                                         f"`{astx.u(st)[:60]}` is shared by every instance (and every subclass): what one election stores, the next one reads")
+    # module-level mutable objects mutated from functions
+    for m in prog.modules.values():
+        if not m.path.startswith(scope):
+            continue
+        globs = {k for k, v in m.defs.items() if isinstance(v, (ast.Assign, ast.AnnAssign)) and v.value is not None and _is_mutable_literal(v.value)}
+        for f in prog.iter_functions((m.path,)):
+            if isinstance(f.node, ast.Lambda) or f.module is not m:
+                continue
+            loc = set(f.params)
+            for x in astx.walk_own(f.node):
+                if isinstance(x, ast.Name) and isinstance(x.ctx, ast.Store):
+                    loc.add(x.id)
+            for w in effects.writes_in(f.node):
+                if w.root in globs and w.root not in loc:
+                    ctx.violated(f, w.node, f"{f.short} mutates module-level `{w.root}`", "module-level mutable state survives across calls and elections")
+    # shared utilities leave their arguments alone
+    for name in ("remove_cand", "add_missing_cands", "score_profile_from_rankings", "first_place_votes", "borda_scores", "mentions", "tiebreak_set", "tiebroken_ranking",
+                 "score_dict_to_ranking", "elect_cands_from_set_ranking", "expand_tied_ballot", "resolve_profile_ties", "score_profile_from_ballot_scores",
+                 "fractional_transfer", "random_transfer", "ballots_by_first_cand", "validate_score_vector"):
+        f = prog.find_func(name)
+        fr = effects.fresh_locals(prog, f)
+        bad = [(w.node, w.root, w.describe()) for w in effects.writes_in(f.node) if w.root in f.params and w.root not in fr and not _rebound_before(f, w.root, w.node)]
+        bad += [(node, nm_, d_) for node, nm_, d_ in effects.name_mutations(f.node) if nm_ in f.params and not _rebound_before(f, nm_, node)]
+        if not bad:
+            ctx.ok(f, f.node, f"{name} does not mutate its arguments", "")
+        for node, nm_, d_ in bad:
+            ctx.violated(f, node, f"{name} mutates its argument `{nm_}`: {d_}", "the caller's ballots / rankings / score dictionaries (possibly a recorded round) are changed in place")
+    ctx.note(f"R7 scanned {n} functions for shared mutable state")
+
+
+def _rebound_before(f, name, node):
+    """The parameter was re-bound to a fresh object earlier in the function (x = list(x))."""
+    for st, dv in astx.defs_of(f.node, name):
+        if dv is not None and st.lineno < node.lineno and isinstance(dv, (ast.Call, ast.List, ast.BinOp, ast.ListComp)):
+            return True
+    return False
+
+
 RULES = [
     ("C09.P0", p0_closed_world, 1, "closed-world precondition: no reflective attribute access in the package"),
     ("C09.R1", r1_queries_pure, 9, "query methods and their call closure write nothing observable"),
@@ -483,6 +575,7 @@ RULES = [
     ("C09.R3", r3_replay_independent, 12, "replayed step logic reads no run-dependent state"),
     ("C09.R4", r4_index_guards, 8, "two-sided IndexError guard + modulo, or delegation to a guarded query"),
     ("C09.R5", r5_recorded_scores, 12, "recorded scores/order = class score function of the returned profile"),
+    ("C09.R7", r7_no_shared_mutable_state, 15, "no mutated mutable defaults / class-level / module-level state; shared utilities do not mutate their arguments"),
     ("C09.R6", r6_ranges, 7, "cumulative queries use the documented slice / loop bounds"),
 ]
 
@@ -503,6 +596,9 @@ FAULTS = [
                                           "            self.election_states[-1].round_number = 2\n            if store_states:\n                self.election_states.append(plurality.election_states[1])")], "C09.R2"),
     ("stv step reads election_states", [(STV, "        elif len(profile.candidates) == self.m - len(\n            [c for s in self.get_elected(prev_state.round_number) for c in s]\n        ):", "        elif len(profile.candidates) == self.m - len(\n            [c for st in self.election_states for s in st.elected for c in s]\n        ):")], "C09.R3"),
     ("stv step consults final ranking", [(STV, "            lowest_fpv_cands = prev_state.remaining[-1]", "            lowest_fpv_cands = self.get_remaining()[-1]")], "C09.R3"),
+    ("class-level memo dict in STV", [(STV, "    def _stv_validate_profile(self, profile: PreferenceProfile):", "    _memo: dict = {}\n\n    def _remember(self, key, value):\n        self._memo[key] = value\n\n    def _stv_validate_profile(self, profile: PreferenceProfile):")], "C09.R7"),
+    ("mutable default accumulates", [("src/votekit/utils.py", "def score_dict_to_ranking(\n    score_dict: Union[dict[str, Fraction], dict[str, float]], sort_high_low: bool = True\n) -> tuple[frozenset[str], ...]:", "def score_dict_to_ranking(\n    score_dict: Union[dict[str, Fraction], dict[str, float]], sort_high_low: bool = True, _seen: list = []\n) -> tuple[frozenset[str], ...]:\n    _seen.append(len(score_dict))")], "C09.R7"),
+    ("selector pops from the caller's ranking", [("src/votekit/utils.py", "    num_elected = 0\n    elected = []\n    i = 0\n    tiebreak_ranking = None", "    num_elected = 0\n    elected = []\n    i = 0\n    tiebreak_ranking = None\n    if isinstance(ranking, list) and ranking and not ranking[-1]:\n        ranking.pop()")], "C09.R7"),
     ("get_elected upper bound off by one", [(MO, "            or round_number > len(self.election_states) - 1\n        ):\n            raise IndexError(\"round_number out of range.\")\n\n        round_number = round_number % len(self.election_states)\n\n        return tuple(\n            [\n                s\n                for state in self.election_states[: (round_number + 1)]",
                                              "            or round_number > len(self.election_states)\n        ):\n            raise IndexError(\"round_number out of range.\")\n\n        round_number = round_number % len(self.election_states)\n\n        return tuple(\n            [\n                s\n                for state in self.election_states[: (round_number + 1)]")], "C09.R4"),
     ("get_status_df skips modulo", [(MO, "        round_number = round_number % len(self.election_states)\n\n        new_index", "        new_index")], "C09.R4"),
